@@ -125,6 +125,13 @@ async def _scenario(loop, sim, hosts, events, seed):
         raw_attempts.append((now_units(loop), [hidx(a[3]) for a in addr_infos]))
         return await orig_start(addr_infos, **kw)
     net.start_connection = start_connection
+    opened = []  # (units, host idx) of every TCP connection that was established
+    orig_create = net.create_connection
+
+    async def create_connection(factory, sock=None, **kw):
+        opened.append((now_units(loop), hidx(sock.host)))
+        return await orig_create(factory, sock=sock, **kw)
+    net.create_connection = create_connection
     # stale-loss oracle: the loss of a transport that is not the current one must leave the current one alone
     ctrl = MagicMock()
     ctrl._char_cache = CharacteristicCacheMemory()
@@ -148,6 +155,7 @@ async def _scenario(loop, sim, hosts, events, seed):
             tr_cls._lost = lost_hook
         try:
             n_att = 0
+            n_open = 0
             seen_shutdown = False
             last_attempt = None
             harness_cancelled = set()
@@ -282,6 +290,14 @@ async def _scenario(loop, sim, hosts, events, seed):
                             problems.append(("backoff-too-long", f"after {ev}: {((t2 - t1) / UNIT):.1f}s between consecutive attempts"))
                 if new:
                     last_attempt = new[-1][0]
+                # C10: an immediate retry only moves on to another address - never the same one again at the same instant
+                new_open = opened[n_open:]
+                n_open = len(opened)
+                seen_at = {}
+                for t, h in new_open:
+                    if h in seen_at.get(t, ()):
+                        problems.append(("immediate-retry-same-address", f"after {ev}: address {h} was connected to twice at the same instant t={t / UNIT:.3f}s (no back-off in between)"))
+                    seen_at.setdefault(t, set()).add(h)
                 # C10: no advertised address is excluded forever
                 if k in ("x", "X", "d"):
                     groups = []
